@@ -108,8 +108,32 @@ func explainString(e influxql.Expr) string {
 		{"string-literal-with-cr-or-nul+integral-number-printed-as-integer", refOpts{noCR: true, typed: true}},
 		{"string-literal-with-cr-or-nul+omits-needed-parens+integral-number-printed-as-integer", refOpts{noCR: true, parens: true, typed: true}},
 	}
+	// a repair can only be the reason if the tree has what it repairs: an operand that
+	// needs parentheses and is not a ParenExpr, an integral number literal, a string with
+	// CR/NUL. (Otherwise e.g. a printer that drops the parentheses of ParenExpr nodes would
+	// be "explained" by the reference printer writing them.)
+	has := map[string]bool{}
+	for _, cse := range causes(e) {
+		switch cse {
+		case "binary-child-needs-parens-but-has-none":
+			has["omits-needed-parens"] = true
+		case "numlit-integral", "numlit-integral-below-minint64":
+			has["integral-number-printed-as-integer"] = true
+		case "string-with-cr-or-nul":
+			has["string-literal-with-cr-or-nul"] = true
+		}
+	}
 	want := canon(e, canonOpts{stripParens: true, timeAsString: true})
 	for _, v := range variants {
+		applicable := true
+		for _, part := range strings.Split(v.name, "+") {
+			if !has[part] {
+				applicable = false
+			}
+		}
+		if !applicable {
+			continue
+		}
 		var b strings.Builder
 		refRender(&b, e, v.o)
 		got, err := rdParseExpr(b.String(), nil)
